@@ -3,6 +3,7 @@
 package harness
 
 import (
+	"github.com/theory/sqljson/path/exec"
 	"harness/nd"
 )
 
@@ -128,4 +129,88 @@ func C10_Conjunction() {
 	if aerr == nil && berr == nil {
 		nd.Assert(sameSeq(a, b, false), tag+"/items")
 	}
+}
+
+var _ = reg("C10_Generated", C10_Generated)
+
+// prefixes whose items are generated values (methods, arithmetic, subscript
+// lists), with conditions that apply to those items
+var genFilterCases = [][3]string{
+	{"$.keyvalue()", "@.value > 1", "$.value > 1"},
+	{"$.keyvalue()", "@.key == \"b\"", "$.key == \"b\""},
+	{"$[*].keyvalue()", "@.value > 1", "$.value > 1"},
+	{"$.keyvalue().value", "@ > 1", "$ > 1"},
+	{"$.*.keyvalue()", "exists(@.value.a)", "exists($.value.a)"},
+	{"$[0, 1]", "@ > 1", "$ > 1"},
+	{"$[0 to last]", "@.a > 1", "$.a > 1"},
+	{"(-$[*])", "@ < -1", "$ < -1"},
+	{"$[*].abs()", "@ > 1", "$ > 1"},
+	{"$.*.double()", "@ > 1", "$ > 1"},
+	{"$[*].size()", "@ > 1", "$ > 1"},
+	{"$.**", "@ > 1", "$ > 1"},
+	{"$.*[*]", "@ > 1", "$ > 1"},
+}
+
+// C10_Generated: the filter rule after steps that generate their items
+// (keyvalue triples, method results, arithmetic, subscript lists, .**), on
+// documents with two entries so that a later item can pass after an earlier
+// one was dropped: same items (deep equality, keyvalue ids included), same
+// order, and a failing prefix fails the same way with or without the filter.
+func C10_Generated() {
+	mode := modePrefix()
+	c := genFilterCases[nd.Choice(len(genFilterCases))]
+	es := nd.Spec{Kinds: nd.KFloat | nd.KArray | nd.KObject, Depth: 1, Width: 1, Keys: []string{"a", "b"}}
+	if nd.Thorough() {
+		es.Width = 2
+	}
+	var doc any
+	if nd.Choice(2) == 0 {
+		doc = []any{nd.JSON(es), nd.JSON(es)}
+	} else {
+		doc = map[string]any{"a": nd.JSON(es), "b": nd.JSON(es)}
+	}
+	tag := "C10/generated " + mode + c[0] + " ? (" + c[1] + ")"
+	p := parse(mode + c[0] + " ? (" + c[1] + ")")
+	got, gerr := p.Query(bg, doc)
+	pre, perr := parse(mode+c[0]).Query(bg, doc)
+	if perr != nil {
+		nd.Assert(errClass(gerr) == errClass(perr), tag+"/prefix-error")
+		if isVerbose(perr) {
+			// the items kept before the failure are the filtered items before it
+			pre, perr = parse(mode+c[0]).Query(bg, doc, exec.WithSilent())
+			got, gerr = p.Query(bg, doc, exec.WithSilent())
+			if perr != nil || gerr != nil {
+				return
+			}
+		} else {
+			return
+		}
+	} else {
+		nd.Assert(gerr == nil, tag+"/filter-aborts-the-query")
+		if gerr != nil {
+			return
+		}
+	}
+	var items []any
+	for _, x := range pre {
+		if a, ok := x.([]any); ok && mode == "" {
+			items = append(items, a...)
+		} else {
+			items = append(items, x)
+		}
+	}
+	var want []any
+	for _, x := range items {
+		r, err := parse(mode+c[2]).Query(bg, x)
+		if err != nil {
+			nd.Assert(false, tag+"/predicate-check-error")
+			return
+		}
+		if len(r) == 1 {
+			if b, ok := r[0].(bool); ok && b {
+				want = append(want, x)
+			}
+		}
+	}
+	nd.Assert(sameSeq(got, want, refPermutable(c[0])), tag+"/kept-items")
 }
